@@ -51,38 +51,52 @@ NIC3_GENES = [("GA", "+", [("TA", [(25000, 25300), (25600, 25800)])]),        # 
               ("GB", "+", [("TB", [(40000, 40300), (41000, 41500)])])]        # wholly inside sub-region 2
 
 
-def witness_dataset(name):
-    """hand-made split loci; None for names of props/C04.py"""
+def witness_dataset(name, control=False):
+    """hand-made split loci; None for names of props/C04.py.  `control` (round c04rep): the same locus WITHOUT the deep neighbour,
+    i.e. the same reads of the locus in a read cluster that `split_coverage_regions` does not cut"""
+    kw = _witness_args(name)
+    if kw is None:
+        return None
+    if control:
+        kw = dict(kw, with_filler=False)
+    return SL.split_dataset(**kw)
+
+
+def _witness_args(name):
     if name == "split_region":
         # audit C04 GAP-1: 700 reads of a 2-exon neighbour + 3 + 3 reads of novel isoform N bridging the cut at 33536
-        return SL.split_dataset()
+        return {}
+    if name == "split_region_reads":
+        # follow-up of fix b2b4dd9 (fixaudit-C): the sub-region that reports the chain first holds the FEWER reads (3), the later
+        # one 12: the later constructor's reads are reads of the reported isoform
+        return dict(starts=(25300, 25700), per_start=(3, 12), n_fill=1700)
     if name == "split_region_genedb":
-        return SL.split_dataset(seed=12, annotate_f=True, f_exons=((1000, 1500), (26000, 26600)))
+        return dict(seed=12, annotate_f=True, f_exons=((1000, 1500), (26000, 26600)))
     if name == "split_region_monointron":
         # a 2-exon novel isoform bridging the cut: the twins share the polyA end (NOT the class of `monointron_apa_duplicates`)
-        return SL.split_dataset(n_exons=((25300, 25800), (41000, 41500)))
+        return dict(n_exons=((25300, 25800), (41000, 41500)))
     if name == "split_region_control":
         # the same six reads alone: cluster of 16 kb, not cut
-        return SL.split_dataset(with_filler=False)
+        return dict(with_filler=False)
     if name == "split_partial_annotation":
         # GAP-1b: N combines annotated introns of GA (sub-region 1 only), GC (both) and GB (sub-region 2 only)
-        return SL.split_dataset(f_exons=F_EXONS, n_exons=NIC3_N, starts=(25000,), per_start=6, genes=NIC3_GENES, annotate_f=True)
+        return dict(f_exons=F_EXONS, n_exons=NIC3_N, starts=(25000,), per_start=6, genes=NIC3_GENES, annotate_f=True)
     if name == "split_partial_annotation_control":
-        return SL.split_dataset(f_exons=F_EXONS, n_exons=NIC3_N, starts=(25000,), per_start=6, genes=NIC3_GENES, annotate_f=True,
-                                with_filler=False)
+        return dict(f_exons=F_EXONS, n_exons=NIC3_N, starts=(25000,), per_start=6, genes=NIC3_GENES, annotate_f=True,
+                    with_filler=False)
     if name == "split_reference_chain":
         # the reference transcript TN IS the chain of the bridging reads; its gene spans the cut
         n = ((25300, 25800), (40000, 40300), (41000, 41500))
-        return SL.split_dataset(n_exons=n, genes=[("GN", "+", [("TN", list(n))])], annotate_f=True)
+        return dict(n_exons=n, genes=[("GN", "+", [("TN", list(n))])], annotate_f=True)
     if name == "split_gene_in_second_region":
         # gene GB lies wholly in sub-region 2 and shares N's last intron; N starts in an unannotated part of sub-region 1
-        return SL.split_dataset(genes=[("GB", "+", [("TB", [(40000, 40300), (41000, 41500)])])])
+        return dict(genes=[("GB", "+", [("TB", [(40000, 40300), (41000, 41500)])])])
     if name == "split_gene_in_first_region":
-        return SL.split_dataset(n_exons=NIC3_N, starts=(25000, 25200), genes=[NIC3_GENES[0]])
+        return dict(n_exons=NIC3_N, starts=(25000, 25200), genes=[NIC3_GENES[0]])
     return None
 
 
-PIPE_WITNESSES = [("split_region", {"genedb": False}), ("split_region_genedb", {"genedb": True}),
+PIPE_WITNESSES = [("split_region", {"genedb": False}), ("split_region_reads", {"genedb": True}), ("split_region_genedb", {"genedb": True}),
                   ("split_partial_annotation", {"genedb": True}), ("split_partial_annotation_control", {"genedb": True})]
 PIPE_WITNESSES_THOROUGH = [("split_region_control", {"genedb": False}), ("split_region_monointron", {"genedb": False}), ("split_reference_chain", {"genedb": True}),
                            ("split_gene_in_second_region", {"genedb": True}), ("split_gene_in_first_region", {"genedb": True}),
@@ -92,9 +106,87 @@ PIPE_WITNESSES_THOROUGH = [("split_region_control", {"genedb": False}), ("split_
 
 def build_dataset(spec):
     if spec["kind"] == "split":
-        ds, _info = SL.random_split_dataset(spec["seed"])
+        ds, _info = SL.random_split_dataset(spec["seed"], with_filler=not spec.get("control"))
         return ds
     return None
+
+
+# ------------------------------------------------------------------ round c04rep: cut cluster vs the same locus in an uncut cluster
+
+LOST_KIND = "supporting_reads_lost"
+LOST_CLASS = "split_region"
+
+
+def control_spec(spec):
+    """the dataset a split locus is compared with: the same reads of the locus, the deep neighbour left out (cluster not cut);
+    None for datasets that are not split loci / are controls themselves"""
+    if spec.get("control"):
+        return None
+    if spec.get("kind") == "split":
+        return dict(spec, control=True)
+    if spec.get("kind") == "witness":
+        kw = _witness_args(spec.get("name"))
+        if kw is not None and kw.get("with_filler", True):
+            return dict(spec, control=True)
+    return None
+
+
+def read_chain_table(outdir):
+    """-> ({read: sorted chain keys of the spliced models it is listed under}, {chain key: summed transcript_model_counts})
+    chain key = (chr, strand, intron chain) - transcript ids differ between two runs, chains do not"""
+    import pipeline as P
+    C04 = _C04()
+    f = P.out_files(outdir)
+    models = C04.gtf_transcripts(f["S.transcript_models.gtf"])
+    key = {tid: (t["chr"], t["strand"], tuple(t["introns"])) for tid, t in models.items() if t["introns"]}
+    reads = defaultdict(set)
+    for l in P.read_lines(f["S.transcript_model_reads.tsv"]):
+        rid, tid = l.split("\t")[:2]
+        reads[rid]
+        if tid in key:
+            reads[rid].add(key[tid])
+    rows, _hdr, _st = P.read_table(f["S.transcript_model_counts.tsv"])
+    counts = defaultdict(float)
+    for tid, vals in rows.items():
+        if tid in key:
+            counts[key[tid]] += float(vals[0])
+    return {r: sorted(v) for r, v in reads.items()}, dict(counts)
+
+
+def differential(out_cut, out_ctl):
+    """the reads of the control (= the reads of the locus) are listed under spliced models with the same intron chains in both runs,
+    and every chain the control reports has the same count in the cut run.  -> ([(kind, class, detail)], numeric stats)"""
+    cut_r, cut_c = read_chain_table(out_cut)
+    ctl_r, ctl_c = read_chain_table(out_ctl)
+    fails = []
+    # mono-intronic chains are not compared: a mono-intronic model must reach `min_mono_count_rel` of the coverage of the
+    # OVERLAPPING components (`get_overlapping_component_max_coverage`), so the deep neighbour itself - which the control lacks -
+    # removes the copy next to it (`split_region_monointron`, both trees); for >= 2 introns the cut-off looks at the model's own
+    # component only and the control is a valid control
+    mono = lambda ks: any(len(k[2]) < 2 for k in ks)
+    skipped = sum(1 for r, v in ctl_r.items() if mono(v) or mono(cut_r.get(r) or []))
+    ctl_r = {r: v for r, v in ctl_r.items() if not (mono(v) or mono(cut_r.get(r) or []))}
+    ctl_c = {k: c for k, c in ctl_c.items() if len(k[2]) >= 2}
+    bad = [(r, v, cut_r.get(r)) for r, v in sorted(ctl_r.items()) if cut_r.get(r) != v]
+    if bad:
+        r, v, w = bad[0]
+        fails.append((LOST_KIND, LOST_CLASS,
+                      "%d of %d reads of the locus are listed under other intron chains when the read cluster is cut: read %s is listed under %s "
+                      "in the uncut cluster and under %s in the cut one" % (len(bad), len(ctl_r), r, _fmt_keys(v), _fmt_keys(w))))
+    else:
+        for k, c in sorted(ctl_c.items()):
+            if abs(cut_c.get(k, 0.0) - c) > 0.005:
+                fails.append((LOST_KIND, LOST_CLASS, "the models with intron chain %s have the count %.2f in the uncut cluster and %.2f in the cut one"
+                              % (list(k[2])[:3], c, cut_c.get(k, 0.0))))
+                break
+    return fails, {"split_diff_reads_compared": len(ctl_r), "split_diff_chains_compared": len(ctl_c),
+                   "split_diff_monointron_reads_not_compared": skipped}
+
+
+def _fmt_keys(v):
+    if v is None:
+        return "nothing (read absent)"
+    return "*" if not v else "; ".join("%s%s %s" % (k[0], k[1], list(k[2])[:3]) for k in v)
 
 
 def pipeline_cases(ctx):
@@ -270,7 +362,26 @@ def _cov_choice(rng, rel, intron_path_len):
 ERRS = (KeyError, ZeroDivisionError, IndexError, AssertionError, ValueError, TypeError)
 
 
-def real_chr_run(kw):
+def _key_of(x):
+    return (x[0], tuple(tuple(i) for i in x[1]))
+
+
+def _set_reported(cls, entries):
+    """`entries`: [[[strand, chain], first id]] - the class attribute is a dict (current code) or a set (fix b2b4dd9)"""
+    if isinstance(cls.reported_novel_chains, dict):
+        cls.reported_novel_chains = {_key_of(k): v for k, v in entries}
+    else:
+        cls.reported_novel_chains = set(_key_of(k) for k, _v in entries)
+
+
+def _get_reported(cls):
+    rep = cls.reported_novel_chains
+    if isinstance(rep, dict):
+        return [[[s_, [list(i) for i in ch]], v] for (s_, ch), v in sorted(rep.items())]
+    return [[[s_, [list(i) for i in ch]], ""] for s_, ch in sorted(rep)]
+
+
+def real_chr_run(kw, snaps=None):
     """the records of one chromosome through REAL `process()` calls that share the class-level sets and one id distributor.
     The stubs' answers are drawn from Random(kw["_seed"]) and written into the region dicts (`sub1`, `sub2`, `n1`, `cov_term`,
     `ins1`, `ins2`, `genes`): they are the model's parameters.  -> canonical result | error"""
@@ -284,10 +395,10 @@ def real_chr_run(kw):
     cls = GB.GraphBasedModelConstructor
     has_set = hasattr(cls, "reported_novel_chains")
     saved_det = set(cls.detected_known_isoforms)
-    saved_rep = set(cls.reported_novel_chains) if has_set else None
+    saved_rep = copy.copy(cls.reported_novel_chains) if has_set else None
     cls.detected_known_isoforms = set(kw["state"]["detected"])
     if has_set:
-        cls.reported_novel_chains = set((s_, tuple(tuple(i) for i in ch)) for s_, ch in kw["state"]["reported"])
+        _set_reported(cls, kw["state"]["reported"])
     dist = IDP.ExcludingIdDistributor.__new__(IDP.ExcludingIdDistributor)
     dist.value = kw["state"]["idv"]
     dist.forbidden_ids = set(kw["forbidden"])
@@ -381,7 +492,23 @@ def real_chr_run(kw):
                         cur["ins"][min(call, 1)].append({"read": a.read_id, "consistent": False, "matched": []})
                 cls.assign_reads_to_models(c, storage)
             c.assign_reads_to_models = assign_reads_to_models
-            c.forward_counts = lambda: None
+            # round c04rep: the REAL forward_counts on a recording counter (the constructors of a chromosome share the counter)
+            snap = {"counted": [], "confirmed": [], "pre_drop": None}
+            c.transcript_counter = types.SimpleNamespace(
+                add_read_info_raw=lambda rid, tids, grp, snap=snap: snap["counted"].append((rid, list(tids))),
+                add_unassigned=lambda n_: None,
+                add_confirmed_features=lambda ids_, snap=snap: snap["confirmed"].extend(ids_))
+            if hasattr(cls, "drop_novel_chains_reported_elsewhere"):
+                def drop(c=c, snap=snap):
+                    # what passed filter_transcripts, with its reads, right before the step under test
+                    snap["pre_drop"] = [(m.transcript_id, m.strand, tuple(C04.junctions([tuple(e) for e in m.exon_blocks])),
+                                         m.transcript_type != GI.TranscriptModelType.known and len(m.exon_blocks) > 1,
+                                         [a.read_id for a in c.transcript_read_ids.get(m.transcript_id, [])])
+                                        for m in c.transcript_model_storage]
+                    cls.drop_novel_chains_reported_elsewhere(c)
+                c.drop_novel_chains_reported_elsewhere = drop
+            if snaps is not None:
+                snaps.append(snap)
 
             class Joiner:
                 def __init__(self, storage, gene_info, cur=rec):
@@ -419,9 +546,8 @@ def real_chr_run(kw):
             pr.out_r2t = io.StringIO()
             pr.dump_read_assignments(c)
             out_regions.append({"store": C04.store_json(c), "r2t": [l.split("\t") for l in pr.out_r2t.getvalue().split("\n") if l]})
-        rep = sorted(cls.reported_novel_chains) if has_set else []
         res = {"detected": sorted(cls.detected_known_isoforms), "idv": dist.value,
-               "reported": [[s_, [list(i) for i in ch]] for s_, ch in rep], "regions": out_regions}
+               "reported": _get_reported(cls) if has_set else [], "regions": out_regions}
     except ERRS as ex:
         res = {"error": "error", "exc": type(ex).__name__}
     finally:
@@ -481,6 +607,13 @@ def gen_chr_case(rng, witness=False):
                     pi["count"] = max(pi["count"], rng.randint(2, 5))
                     pi["reads"] = [["R%d_b%d" % (k, j), rng.choice(["g1", "g2"])] for j in range(max(pi["count"], 1))]
                     paths.append(pi)
+                    if rng.random() < 0.25:
+                        # round c04rep: TWO local copies of the repeated chain in one constructor (another 3' vertex: the
+                        # alternative-polyA twins of the listed finding) - only the first takes the reported id
+                        pi2 = copy.deepcopy(pi)
+                        pi2["path"][-1] = [pi2["path"][-1][0], pi2["path"][-1][1] + rng.choice([300, 700])]
+                        pi2["reads"] = [["R%d_c%d" % (k, j), rng.choice(["g1", "g2"])] for j in range(max(pi2["count"], 1))]
+                        paths.append(pi2)
         aops = []
         if not witness and rng.random() < 0.4 and not env["gene_empty"]:
             ref = rng.choice(["T1", "T2"])
@@ -504,8 +637,9 @@ def gen_chr_case(rng, witness=False):
     if not witness and rng.random() < 0.1:
         src = [pi for rj in regions for pi in rj["paths"] if len(pi["path"]) > 2]
         if src:
-            state["reported"] = [["+", rng.choice(src)["path"][1:-1]]]
-    return {"forbidden": base["forbidden"], "state": state, "regions": regions, "repaired": True, "_seed": rng.randrange(10 ** 9),
+            # a chain reported by a constructor before the first record: its model has an id of the distributor's format
+            state["reported"] = [[["+", rng.choice(src)["path"][1:-1]], "transcript%d.%s.nnic" % (900 + rng.randint(0, 9), base["env"]["chr"])]]
+    return {"forbidden": base["forbidden"], "state": state, "regions": regions, "variant": "keep", "_seed": rng.randrange(10 ** 9),
             "_quiet": witness}
 
 
@@ -526,44 +660,84 @@ def spliced_novel_keys(region_out):
 
 
 def oracle_chr_case(kw):
-    """the clause on a REAL sequence of constructors: a (strand, intron chain) reported by two DIFFERENT constructors of one
-    chromosome task is a failure; what one constructor reports twice by itself is the per-constructor clause (known finding
-    `monointron_apa_duplicates` / the oracle of props/c04sim.py with the real detect_similar_isoforms) and is not judged here.
-    Also: every line of transcript_model_reads names a model the same constructor dumps"""
+    """the clauses on a REAL sequence of constructors:
+    * a (strand, intron chain) reported by two DIFFERENT constructors of one chromosome task is a failure; what one constructor
+      reports twice by itself is the per-constructor clause (known finding `monointron_apa_duplicates` / the oracle of
+      props/c04sim.py with the real detect_similar_isoforms) and is not judged here;
+    * every line of transcript_model_reads names a model dumped by this or an EARLIER constructor of the chromosome
+      (round c04rep: the reads of a repeated chain are listed under the id of the model reported first);
+    * round c04rep, `supporting_reads_lost`: a novel spliced model that passed `filter_transcripts` in constructor k and is not
+      dumped by it because its chain was reported earlier passes its reads on: every read listed under it before the step is
+      listed - by constructor k - under a reported model with that chain (only the first local copy of a chain is judged: a
+      second one is re-assigned by the assigner, a stub here);
+    * `counts_not_forwarded`: every such line reached the shared counter (`forward_counts`) under the same id"""
     kw = copy.deepcopy(kw)
-    kw["state"] = dict(kw["state"], reported=[])          # the chromosome task starts with cleared sets
-    res = real_chr_run(kw)
+    kw["state"] = dict(kw["state"], reported=[])          # the chromosome task starts with cleared containers
+    snaps = []
+    res = real_chr_run(kw, snaps)
     if vlib.is_err(res):
         return None
     seen = {}
+    chain_of = {}
     for k, ro in enumerate(res["regions"]):
-        ids = {m["tid"] for m in ro["store"]["models"]}
+        own = spliced_novel_keys(ro)
+        for tid, key in own:
+            chain_of.setdefault(tid, key)
+        ids = {m["tid"] for m in ro["store"]["models"]} | set(chain_of)
         for rid, tid in ro["r2t"]:
             if tid != "*" and tid not in ids:
-                return "r2t_unknown_transcript", "constructor %d: transcript_model_reads names %s, not in its storage" % (k, tid)
-        for tid, key in spliced_novel_keys(ro):
+                return "r2t_unknown_transcript", "constructor %d: transcript_model_reads names %s, dumped neither by it nor by an earlier constructor" % (k, tid)
+        for tid, key in own:
             if key in seen and seen[key][0] != k:
                 return ("duplicate_novel_chain", "constructors %d and %d of one chromosome report %s and %s with the intron chain %s on strand %s"
                         % (seen[key][0], k, seen[key][1], tid, list(key[1])[:3], key[0]))
             seen.setdefault(key, (k, tid))
+        snap = snaps[k] if k < len(snaps) else None
+        if snap and snap["pre_drop"] is not None:
+            dumped = {m["tid"] for m in ro["store"]["models"]}
+            listed = defaultdict(set)
+            for rid, tid in ro["r2t"]:
+                if tid in chain_of:
+                    listed[rid].add(chain_of[tid])
+            judged = set()
+            for tid, strand, chain, spliced_novel, rids in snap["pre_drop"]:
+                key = (strand, chain)
+                if not spliced_novel or tid in dumped or key in judged:
+                    continue
+                if key in seen and seen[key][0] < k:
+                    judged.add(key)
+                    lost = [r for r in rids if key not in listed[r]]
+                    if lost:
+                        return (LOST_KIND, "constructor %d: %s passed filter_transcripts with %d reads; its intron chain %s was reported by constructor %d as %s; "
+                                "%d of the reads (%s, ...) are listed under no model with that chain"
+                                % (k, tid, len(rids), list(chain)[:3], seen[key][0], seen[key][1], len(lost), lost[0]))
+            counted = defaultdict(set)
+            for rid, tids in snap["counted"]:
+                counted[rid].update(tids)
+            for rid, tid in ro["r2t"]:
+                if tid != "*" and tid not in counted[rid]:
+                    return "counts_not_forwarded", "constructor %d: %s is listed under %s but forward_counts did not pass the pair to the counter" % (k, rid, tid)
     return None
 
 
 def real_drop(kw):
-    """the real `drop_novel_chains_reported_elsewhere` on a storage built by add_model steps, with a preset class-level set"""
+    """the real `drop_novel_chains_reported_elsewhere` on a storage built by add_model steps, with a preset class-level container;
+    result in the shape of driver op `drop_keep`"""
     C04 = _C04()
     IG, GB, GI, PF, TP = C04._impl()
     cls = GB.GraphBasedModelConstructor
     _res, c = C04.real_store_run({"mapq": kw["mapq"], "ops": kw["_ops"], "_params": kw["_params"]})
     before = C04.store_json(c)
     has_set = hasattr(cls, "reported_novel_chains")
-    saved = set(cls.reported_novel_chains) if has_set else None
+    saved = copy.copy(cls.reported_novel_chains) if has_set else None
     if has_set:
-        cls.reported_novel_chains = set((s_, tuple(tuple(i) for i in ch)) for s_, ch in kw["reported"])
+        _set_reported(cls, kw["reported"])
     try:
         c.drop_novel_chains_reported_elsewhere()
-        rep = sorted(cls.reported_novel_chains)
-        res = {"store": C04.store_json(c), "reported": [[s_, [list(i) for i in ch]] for s_, ch in rep]}
+        copies = getattr(c, "repeated_chain_models", [])
+        res = {"store": C04.store_json(c),
+               "final": [m.transcript_id for m in c.transcript_model_storage if not any(m is x for x in copies)],
+               "reported": _get_reported(cls)}
     except (KeyError, AttributeError) as ex:
         res = {"error": "error", "exc": type(ex).__name__}
     finally:
@@ -586,11 +760,13 @@ def gen_drop_case(rng):
     if rng.random() < 0.3:
         reported.append(["+", [[7, 9]]])
     seen, uniq = set(), []
+    own_ids = [x["m"]["tid"] for _k, x in ops]
     for k in reported:
         t = (k[0], tuple(map(tuple, k[1])))
         if t not in seen:
             seen.add(t)
-            uniq.append(k)
+            # the id of the model reported first: normally foreign; 5 %: an id of this storage (the model must follow the dict ops)
+            uniq.append([k, rng.choice(own_ids) if own_ids and rng.random() < 0.05 else "transcript%d.chrF.nnic" % (700 + len(uniq))])
     return {"mapq": kw["mapq"], "_ops": ops, "_params": kw["_params"], "reported": uniq}
 
 
@@ -600,11 +776,12 @@ def corr_drop(ctx, n):
     for _ in range(n):
         kw = gen_drop_case(ctx.rng)
         before, iv = real_drop(kw)
-        cases.append(("drop_reported", dict(kw, store=before)))
+        cases.append(("drop_keep", dict(kw, store=before)))
         vals.append(iv)
         if not vlib.is_err(iv):
-            ctx.count("drop_reported:deleted=%d" % (len(before["models"]) - len(iv["store"]["models"])))
-    C04.run_cases(ctx, cases, vals, lambda op, kw, mo: not vlib.is_err(mo) and len(mo["store"]["models"]) < len(kw["store"]["models"]))
+            ctx.count("drop_keep:local_copies=%d" % (len(iv["store"]["models"]) - len(iv["final"])))
+            ctx.count("drop_keep:second_copies_deleted=%d" % (len(before["models"]) - len(iv["store"]["models"])))
+    C04.run_cases(ctx, cases, vals, lambda op, kw, mo: not vlib.is_err(mo) and len(mo["final"]) < len(kw["store"]["models"]))
 
 
 def correspondence(ctx):
@@ -630,15 +807,23 @@ def correspondence(ctx):
     outs = C04.run_cases(ctx, cases, vals,
                          lambda op, kw, mo: not vlib.is_err(mo) and any(r["store"]["models"] for r in mo["regions"]), canon_model=canon_chr)
     # how often the new step acted: compare with the model of the code before the fix (driver only)
-    orig = ctx.driver.run([vlib.req("C04.chr_run", **dict(kw, repaired=False)) for _op, kw in cases])
-    dropped = 0
-    for mo, mo0 in zip(outs, orig):
+    orig = ctx.driver.run([vlib.req("C04.chr_run", **dict(kw, variant="orig")) for _op, kw in cases])
+    b2b4 = ctx.driver.run([vlib.req("C04.chr_run", **dict(kw, variant="b2b4dd9")) for _op, kw in cases])
+    dropped = lost = 0
+    for mo, mo0, mo1 in zip(outs, orig, b2b4):
         if isinstance(mo, dict) and isinstance(mo0, dict) and "regions" in mo and "regions" in mo0:
             n1 = sum(len(r["store"]["models"]) for r in mo["regions"])
             n0 = sum(len(r["store"]["models"]) for r in mo0["regions"])
             if n0 > n1:
                 dropped += 1
+        if isinstance(mo, dict) and isinstance(mo1, dict) and "regions" in mo and "regions" in mo1:
+            # the model of fix b2b4dd9 on the same input: how often it lists a read with `*` that the current code keeps
+            s1 = sum(1 for r in mo1["regions"] for _rid, t in r["r2t"] if t == "*")
+            s2 = sum(1 for r in mo["regions"] for _rid, t in r["r2t"] if t == "*")
+            if s1 > s2:
+                lost += 1
     ctx.extra["chr_run_cases_where_the_drop_acts"] = dropped
+    ctx.extra["chr_run_cases_where_b2b4dd9_loses_reads"] = lost
 
 
 def oracle(ctx, disagreements, broken):
@@ -654,7 +839,7 @@ def oracle(ctx, disagreements, broken):
             continue
         n += 1
         if r:
-            ctx.fail(r[0], {"level": "inproc", "op": "chr_run", "args": d["input"], "class": "split_region" if r[0] == "duplicate_novel_chain" else ""}, r[1])
+            ctx.fail(r[0], {"level": "inproc", "op": "chr_run", "args": d["input"], "class": "split_region" if r[0] in ("duplicate_novel_chain", LOST_KIND) else ""}, r[1])
             if len(ctx.failures) > 20:
                 break
     q = ctx.tier == "quick" and not broken
@@ -663,7 +848,7 @@ def oracle(ctx, disagreements, broken):
         r = oracle_chr_case(kw)
         n += 1
         if r:
-            ctx.fail(r[0], {"level": "inproc", "op": "chr_run", "args": kw, "class": "split_region" if r[0] == "duplicate_novel_chain" else ""}, r[1])
+            ctx.fail(r[0], {"level": "inproc", "op": "chr_run", "args": kw, "class": "split_region" if r[0] in ("duplicate_novel_chain", LOST_KIND) else ""}, r[1])
             if len(ctx.failures) > 20:
                 break
     ctx.extra["oracle_chr_runs"] = n
